@@ -185,6 +185,12 @@ class FormulaMaterializer(metaclass=FormulaMaterializerMeta):
     ) -> Union[ModelMatrix, ModelMatrices]:
         from formulaic import ModelSpec
 
+        # The caches share work between the parts of one specification; they
+        # depend on its state, output type and dropped rows, and so do not
+        # carry over to another call.
+        self.factor_cache = {}
+        self.encoded_cache = {}
+
         # Prepare ModelSpec(s)
         spec: Union[ModelSpec, ModelSpecs] = ModelSpec.from_spec(
             spec, context=self.layered_context, **spec_overrides
